@@ -535,6 +535,11 @@ type FunctionLiteral struct {
 }
 
 func (fl FunctionLiteral) lambdaPrint(out *PrintState) *PrintState {
+	// A lambda used as an operand (or called, indexed...) must keep its parentheses: !(x=>x) isn't !x=>x.
+	wrap := out.ExpressionPrecedence >= LAMBDA
+	if wrap {
+		out.Print("(")
+	}
 	needParen := len(fl.Parameters) != 1
 	if needParen {
 		out.Print("(")
@@ -549,6 +554,9 @@ func (fl FunctionLiteral) lambdaPrint(out *PrintState) *PrintState {
 		out.Print(" => ")
 	}
 	fl.Body.PrettyPrint(out)
+	if wrap {
+		out.Print(")")
+	}
 	return out
 }
 
@@ -579,9 +587,10 @@ type CallExpression struct {
 }
 
 func (ce CallExpression) PrettyPrint(out *PrintState) *PrintState {
+	oldExpressionPrecedence := out.ExpressionPrecedence
+	out.ExpressionPrecedence = CALL // (!f)(x) isn't !f(x), (a+b)(x) isn't a+b(x).
 	ce.Function.PrettyPrint(out)
 	out.Print("(")
-	oldExpressionPrecedence := out.ExpressionPrecedence
 	out.ExpressionPrecedence = LOWEST
 	out.ComaList(ce.Arguments)
 	out.ExpressionPrecedence = oldExpressionPrecedence
